@@ -356,6 +356,27 @@ def run_case(ck, desc):
             if not ck.margin("on and beside rows: c = +-0.5 psi difference of documented storage", e_, 1e-9):
                 k_ = int(np.argmax(np.abs(alone_ - own_) / bound_))
                 ck.violation("equals-finite-difference-of-documented-storage", {"p": float(pn[k_]), "asked": "alone, on or beside a row", "got": float(alone_[k_]), "want": float(own_[k_]), "rel": e_}, desc)
+    # a sensitivity on the mapping the object hands out: dict(obj.pvt) with ONE documented look-up replaced (a gas
+    # 7 % more expansive, another oil FVF): the storage term follows the look-ups the mapping holds NOW
+    if not const_tab:
+        for key_, fac_ in (("Bg", 1.07), ("Bo", 0.94), ("Bw", 1.02)):
+            pvt_mod = dict(pvt_lib)
+            old_ = pvt_lib[key_]
+            pvt_mod[key_] = (lambda x, old_=old_, fac_=fac_: fac_ * np.asarray(old_(x), dtype=float))
+            own_mod = dict(own)
+            own_mod[key_] = (lambda x, key_=key_, fac_=fac_: fac_ * own[key_](x))
+            try:
+                with np.errstate(all="ignore"):
+                    got_m = np.asarray(fp.compressibility_combined_func(pe, Soe, phi, Sw, pvt_mod), dtype=float)
+            except Exception as e:  # noqa: BLE001
+                ck.violation("storage-follows-the-look-ups-given", {"replaced": key_, "raised": repr(e)[:160]}, desc)
+                continue
+            fm = lambda x: storage(x, Soe, phi, Sw, own_mod, dens)  # noqa: E731
+            want_m = (4 * (fm(pe + 0.125) - fm(pe - 0.125)) / 0.25 - (fm(pe + 0.25) - fm(pe - 0.25)) / 0.5) / 3
+            sc_m = np.abs(want_m) + 1e-9 * np.abs(fm(pe))
+            ck.count("storage_terms_with_one_look-up_replaced")
+            if not ck.margin("one look-up replaced in the handed-out mapping: c follows it", float(np.max(np.abs(got_m - want_m) / sc_m)), 5e-4):
+                ck.violation("storage-follows-the-look-ups-given", {"replaced": key_, "factor": fac_, "max_rel": float(np.max(np.abs(got_m - want_m) / sc_m))}, desc)
     # total mobility follows the documented sum
     kr_own = {k: (lambda s, k=k: np.interp(s, np.asarray(df_kr_sorted["So"]), np.asarray(df_kr_sorted[k]))) for k in ("kro", "krg", "krw")}
     ro, rg, rw = dens
